@@ -190,7 +190,14 @@ pub fn read_source(file_path: &str) -> CliResult<String> {
 /// validated and derives work through actual trait implementations.
 pub fn collect_modules(entry_path: &str) -> CliResult<Vec<ParsedModule>> {
     let path = Path::new(entry_path);
-    let base_dir = path.parent().unwrap_or(Path::new("."));
+    // `incan --check main.incn`: the parent of a bare file name is the empty path, which has no parent of its
+    // own, so `..`/`super` and the project-root search could not walk up. Work from the real directory.
+    let base_dir = match path.parent() {
+        Some(p) if !p.as_os_str().is_empty() => p.to_path_buf(),
+        _ => PathBuf::from("."),
+    };
+    let base_dir = base_dir.canonicalize().unwrap_or(base_dir);
+    let base_dir = base_dir.as_path();
 
     let mut modules = Vec::new();
     let mut processed = HashSet::new();
